@@ -8,26 +8,73 @@ Property theorems (helper lemmas live in `Lemmas/A1.lean`, `Lemmas/Sheet.lean`).
 namespace Tabula.C17
 open Tabula.A1 Tabula.Sheet
 
-/-- `ColumnToIndex (IndexToColumn n) = n` for every column index. -/
-theorem col_bijection_index (n : Nat) : columnToIndex (indexToColumn (n : Int)) = (n : Int) := by
+/-- `ColumnToIndex (IndexToColumn n) = n` for every column index within the bound the code
+enforces since the fix "ColumnToIndex rejects column letters that overflow": column numbers
+(index + 1) up to `maxColumnNumber` = 2^40.  (Before the fix the statement had no bound — and
+the Go `int` wrapped from fourteen letters on.) -/
+theorem col_bijection_index (n : Nat) (hb : n + 1 ≤ maxColumnNumber) :
+    columnToIndex (indexToColumn (n : Int)) = (n : Int) := by
   unfold columnToIndex indexToColumn
   have h : ¬ ((n : Int) < 0) := by omega
   simp only [h, if_false, Int.toNat_natCast]
   rw [colAcc_toColAux]
-  simp
+  simp [hb]
 
-/-- `IndexToColumn (ColumnToIndex s) = s` for every non-empty upper-case letter string. -/
-theorem col_bijection_string (s : Str) (hs : IsUpperCol s) (hne : s ≠ []) :
-    indexToColumn (columnToIndex s) = s := by
-  obtain ⟨r, hr, hpos, hcol⟩ := colAcc_upper_some s hs 0
-  have h1 := hpos hne
+/-- beyond the bound the code answers the error value -1 for the letters of every index -/
+theorem col_index_beyond_bound (n : Nat) (hb : maxColumnNumber < n + 1) :
+    columnToIndex (indexToColumn (n : Int)) = -1 := by
   unfold columnToIndex indexToColumn
-  rw [hr]
-  have h : ¬ (((r : Int) - 1) < 0) := by omega
+  have h : ¬ ((n : Int) < 0) := by omega
+  simp only [h, if_false, Int.toNat_natCast]
+  rw [colAcc_toColAux]
+  have : ¬ n + 1 ≤ maxColumnNumber := by omega
+  simp [this]
+
+/-- non-vacuity, at the bound from both sides: index 2^40 - 1 (the last one converted) and 2^40 -/
+example : (1099511627775 : Nat) + 1 ≤ maxColumnNumber ∧ maxColumnNumber < (1099511627776 : Nat) + 1 := by decide
+
+/-- `ColumnToIndex` of a non-empty upper-case letter string is its bijective base-26 number
+minus one if that number is at most `maxColumnNumber`, and the error value -1 beyond -/
+theorem col_to_index_spec (s : Str) (hs : IsUpperCol s) :
+    columnToIndex s = if colNumber s ≤ maxColumnNumber then (colNumber s : Int) - 1 else -1 := by
+  unfold columnToIndex
+  rw [(colAcc_upper s hs).1]
+  by_cases h : colNumber s ≤ maxColumnNumber <;> simp [h]
+
+/-- `IndexToColumn (ColumnToIndex s) = s` for every non-empty upper-case letter string whose
+column number is within the bound (`colNumber s ≤ 2^40`; `colNumber_short`: every string of up
+to eight letters).  Beyond the bound: `col_string_beyond_bound`. -/
+theorem col_bijection_string (s : Str) (hs : IsUpperCol s) (hne : s ≠ [])
+    (hb : colNumber s ≤ maxColumnNumber) :
+    indexToColumn (columnToIndex s) = s := by
+  obtain ⟨_, hpos, hcol⟩ := colAcc_upper s hs
+  have h1 := hpos hne
+  rw [col_to_index_spec s hs]
+  simp only [hb, if_true]
+  unfold indexToColumn
+  have h : ¬ (((colNumber s : Nat) : Int) - 1 < 0) := by omega
   simp only [h, if_false]
-  have e : ((r : Int) - 1).toNat + 1 = r := by omega
+  have e : ((colNumber s : Int) - 1).toNat + 1 = colNumber s := by omega
   rw [e, hcol]
-  simp [toColAux]
+
+/-- beyond the bound the code answers the error value -/
+theorem col_string_beyond_bound (s : Str) (hs : IsUpperCol s) (hb : maxColumnNumber < colNumber s) :
+    columnToIndex s = -1 := by
+  rw [col_to_index_spec s hs]
+  have : ¬ colNumber s ≤ maxColumnNumber := by omega
+  simp [this]
+
+/-- strings of up to eight letters are within the bound, so the bijection holds for them as
+stated before the fix -/
+theorem col_bijection_string_short (s : Str) (hs : IsUpperCol s) (hne : s ≠ []) (hlen : s.length ≤ 8) :
+    indexToColumn (columnToIndex s) = s :=
+  col_bijection_string s hs hne (colNumber_short s hs hlen)
+
+/-- non-vacuity: "XFD" is within the bound; "CRPXNLSKVLJFHH" (fourteen letters) is beyond it -/
+example : IsUpperCol [88, 70, 68] ∧ [88, 70, 68] ≠ [] ∧ colNumber [88, 70, 68] ≤ maxColumnNumber := by
+  refine ⟨?_, by simp, by decide⟩
+  intro c hc; simp at hc; omega
+example : maxColumnNumber < colNumber [67, 82, 80, 88, 78, 76, 83, 75, 86, 76, 74, 70, 72, 72] := by decide
 
 /-- lower-case spellings denote the same column (the `strings.ToUpper` in the code) -/
 theorem col_case_insensitive (s : Str) : columnToIndex (s.map upper) = columnToIndex s := by
@@ -46,9 +93,12 @@ theorem col_case_insensitive (s : Str) : columnToIndex (s.map upper) = columnToI
       rw [hu, ih]
   rw [this]
 
-/-- `ParseCellRef (CellRef col row) = (col,row)` for every non-negative pair in int64 range. -/
-theorem cellref_roundtrip (col row : Nat) (hrow : row + 1 ≤ maxInt64) :
-    parseCellRef (cellRef (col : Int) (row : Int)) = .ok ((col : Int), (row : Int)) := by
+/-- `ParseCellRef (CellRef col row)` for every non-negative pair with the row in int64 range:
+the pair back if the column number is within `maxColumnNumber`, the "invalid column" error
+beyond (the column letters are handed to `ColumnToIndex`) -/
+theorem parse_cellref (col row : Nat) (hrow : row + 1 ≤ maxInt64) :
+    parseCellRef (cellRef (col : Int) (row : Int)) =
+      if col + 1 ≤ maxColumnNumber then .ok ((col : Int), (row : Int)) else .error .badCol := by
   unfold cellRef indexToColumn decInt
   have h0 : ¬ ((col : Int) < 0) := by omega
   have h1 : ¬ (((row : Int) + 1) < 0) := by omega
@@ -61,9 +111,6 @@ theorem cellref_roundtrip (col row : Nat) (hrow : row + 1 ≤ maxInt64) :
   have htw := takeWhile_letters_append (toColAux (col + 1) []) d ds hl ⟨hd1, hd2⟩
   unfold parseCellRef
   rw [hd, htw.1, htw.2, ← hd]
-  have hci := col_bijection_index col
-  unfold columnToIndex indexToColumn at hci
-  simp only [h0, if_false, Int.toNat_natCast] at hci
   have e1 : (toColAux (col + 1) [] ++ dec (row + 1)).isEmpty = false := by
     cases h : toColAux (col + 1) [] with
     | nil => exact absurd h hne
@@ -76,14 +123,34 @@ theorem cellref_roundtrip (col row : Nat) (hrow : row + 1 ≤ maxInt64) :
   simp only [e1, e2, e3, Bool.false_eq_true, if_false]
   unfold columnToIndex
   rw [colAcc_toColAux]
-  rw [atoi_dec (row + 1) hrow]
-  have : ¬ (((col + 1 : Nat) : Int) - 1 < 0) := by omega
-  simp only [this, if_false]
-  have : ¬ (((row + 1 : Nat) : Int) < 1) := by omega
-  simp only [this, if_false]
-  congr 1
-  simp only [Prod.mk.injEq]
-  omega
+  by_cases hb : col + 1 ≤ maxColumnNumber
+  · simp only [hb, if_true]
+    rw [atoi_dec (row + 1) hrow]
+    have : ¬ (((col + 1 : Nat) : Int) - 1 < 0) := by omega
+    simp only [this, if_false]
+    have : ¬ (((row + 1 : Nat) : Int) < 1) := by omega
+    simp only [this, if_false]
+    congr 1
+    simp only [Prod.mk.injEq]
+    omega
+  · simp [hb]
+
+/-- `ParseCellRef (CellRef col row) = (col,row)` for every non-negative pair with the row in
+int64 range and the column number within the bound `ColumnToIndex` now enforces (2^40; before
+the fix the statement had no column bound). -/
+theorem cellref_roundtrip (col row : Nat) (hcol : col + 1 ≤ maxColumnNumber) (hrow : row + 1 ≤ maxInt64) :
+    parseCellRef (cellRef (col : Int) (row : Int)) = .ok ((col : Int), (row : Int)) := by
+  rw [parse_cellref col row hrow]; simp [hcol]
+
+/-- beyond the column bound the printed reference is an invalid reference -/
+theorem cellref_beyond_bound (col row : Nat) (hcol : maxColumnNumber < col + 1) (hrow : row + 1 ≤ maxInt64) :
+    parseCellRef (cellRef (col : Int) (row : Int)) = .error .badCol := by
+  rw [parse_cellref col row hrow]
+  have : ¬ col + 1 ≤ maxColumnNumber := by omega
+  simp [this]
+
+/-- non-vacuity: XFD1048576 (column 16383, row 1048575) is within both bounds -/
+example : (16383 : Nat) + 1 ≤ maxColumnNumber ∧ (1048575 : Nat) + 1 ≤ maxInt64 := by decide
 
 /-- **placement**: after the second pass, position `(r,c)` of the grid holds exactly the
 result of the writes whose row attribute and reference column name `(r,c)`, applied in
